@@ -499,7 +499,7 @@ pub fn run(tier: Tier) -> i32 {
     let mut bounds = serde_json::Map::new();
 
     // (1) circles: every type byte x every sound byte x every context
-    let extras = ["", ",0:0:0:0:", ",0:0:-1:0:", ",1:2:-7:30:", ",1:2:3:40:x.wav", ",2:0", ",3:1:0", ",4:4:1:-5:", ",1", ",x:0", ",0:0:0:0:a:b", ",1:2:3", ",0:3:2:120:", ",:1:1"];
+    let extras = ["", ",0:0:0:0:", ",258:0:0:0:", ",256:259:0:0:", ",-254:2:0:0:", ",0:0:-1:0:", ",1:2:-7:30:", ",1:2:3:40:x.wav", ",2:0", ",3:1:0", ",4:4:1:-5:", ",1", ",x:0", ",0:0:0:0:a:b", ",1:2:3", ",0:3:2:120:", ",:1:1"];
     let total = 256 * 256;
     let a = par_range(total, |idx, acc| {
         let (ty, s) = (idx / 256, idx % 256);
@@ -624,7 +624,7 @@ pub fn run(tier: Tier) -> i32 {
 
     // (4) node sound / bank lists against repeat counts
     let node_sounds = ["", "2", "2|4", "2|4|8", "2|4|8|14", "x|2", "|", "256|1", "2| 8", " 4 |2"];
-    let node_banks = ["", "1:2", "1:2|3:1", "1:2|3:1|0:0", "1:2|x", "1|2", "1:2:3:4|0:0", "0:0|0:0|0:0|2:2"];
+    let node_banks = ["", "1:2", "258:1|1:259", "1:2|3:1", "1:2|3:1|0:0", "1:2|x", "1|2", "1:2:3:4|0:0", "0:0|0:0|0:0|2:2"];
     let repeats = ["0", "1", "2", "3", "4", "9000", "9001", "-5"];
     let radices = [node_sounds.len() as u64, node_banks.len() as u64, repeats.len() as u64, 4];
     let a = par_range(product(&radices), |idx, acc| {
